@@ -2,7 +2,7 @@
 """Regression over the kept seeded changes: apply each /verif/seeded/<id>/patch.diff to a scratch
 copy of /repo/src and run the check of the property it breaks (must exit 1 with a VIOLATION line).
 
-    tools/run_seeded.py [-j 8] [--all-checks]
+    tools/run_seeded.py [-j 8] [--all-checks [--update-meta]]
 """
 import concurrent.futures as cf
 import json
@@ -36,6 +36,10 @@ def run(seed: str):
                 fired.append(p)
                 if p == prop:
                     first = next((ln.strip() for ln in r.stdout.splitlines() if ln.startswith("  R") and " instances=" not in ln), "")
+        if "--update-meta" in sys.argv and "--all-checks" in sys.argv:
+            meta["checks_that_fire_now"] = fired
+            meta["own_check_message_now"] = first[:300]
+            json.dump(meta, open(os.path.join(d, "meta.json"), "w"), indent=1)
         return seed, prop, "CAUGHT" if prop in fired else "MISSED", (",".join(fired) + " | " + first)[:260]
     finally:
         shutil.rmtree(tmp, ignore_errors=True)
